@@ -5,7 +5,7 @@
    [hasher_input r = <selected bytes>] for any hash function. *)
 From Coq Require Import List NArith Bool Lia.
 From C2PA Require Import Base.Bytes Model.RangeHash Model.HashPipeline
-     Proofs.BytesProofs Proofs.RangeHashProofs Proofs.HashPipelineProofs Generated.C13_facts.
+     Proofs.BytesProofs Proofs.RangeHashProofs Proofs.RangeHashMarkers Proofs.HashPipelineProofs Generated.C13_facts.
 Import ListNotations.
 Open Scope N_scope.
 
@@ -17,6 +17,25 @@ Theorem c13_exclusion_spec :
     Forall no_marker hr -> Forall (in_bounds (len data)) hr ->
     exists r, hash_model debug data hr true buf = Ok r /\ hasher_input r = sel hr 0 data.
 Proof. exact exclusion_spec. Qed.
+
+(* Exclusion mode with BMFF offset markers (HashRange entries carrying bmff_offset): every marker position o
+   contributes be64(o) immediately before the byte at o; everything else as above.  Markers are distinct and sit
+   on hashed (non-excluded) positions, as the SDK generates them (top-level box starts); the known class
+   F-MARKER1 (a marker whose following byte is excluded, is another marker, or is the end of the data) is excluded.
+   The outcome is never an error; a debug build may only panic on u32 overflow of the progress total. *)
+Theorem c13_exclusion_markers_spec :
+  forall debug data hr buf,
+    1 <= len data -> len data < U64 -> 1 <= buf ->
+    Forall (in_bounds (len data)) hr ->
+    NoDup (markers_of hr) ->
+    (forall o, In o (markers_of hr) -> o < len data /\ covered (plain_of hr) o = false) ->
+    ~ known_excl (len data) hr ->
+    match hash_model debug data hr true buf with
+    | Ok r => hasher_input r = selm (plain_of hr) (markers_of hr) 0 data
+    | Err _ => False
+    | Panic => debug = true
+    end.
+Proof. exact exclusion_markers_spec. Qed.
 
 (* Inclusion mode (markers allowed): each non-empty range's bytes in stable start order, each preceded by
    its 8-byte big-endian marker, outside the known class F-MARKER1 (a one-byte range starting at a marker). *)
